@@ -146,6 +146,7 @@ def run(tier, v):
     lines, meta = [], {}
     alone_needed = set()
     sched_cache = {}
+    unordered = set()
     states = trans = 0
     for crate, css in sets.items():
         for cs in css:
@@ -172,6 +173,15 @@ def run(tier, v):
                 i = len(lines)
                 meta[i] = (crate, cs, sc)
                 lines.append({"id": "I%d" % i, "crate": crate, "frames": frames, "matcher": True, "cfg": {}})
+                if crate != "uni" and len(scheds) and sc in scheds[:6]:
+                    # the same interleaving through the parallel front end, with a per-worker capacity that just covers the set
+                    # (documented as per worker: "within the configured connection capacity")
+                    i = len(lines)
+                    meta[i] = (crate, cs, sc)
+                    if crate == "tcp":
+                        unordered.add(i)          # the TCP pool shards by sending host: the two directions of a connection are not ordered
+                    lines.append({"id": "I%d" % i, "crate": crate + "_par", "frames": frames, "matcher": True, "cfg": {}, "cap": len(cs) * (2 if crate == "tcp" else 1),
+                                  "parallel": {"workers": 2, "queue": 256, "batch": 4, "timeout_ms": 5}})
             for c in cs:
                 alone_needed.add((crate, c))
     for crate, pairs in sequels.items():
@@ -210,7 +220,8 @@ def run(tier, v):
                 one = attribute(crate, inter[i], [lib[cs[0]]])[0]
                 f.write(json.dumps({"id": i, "conns": [{"inter": one, "alone": alone[(crate, cs[0])] + alone[(crate, cs[1])]}]}) + "\n")
                 continue
-            f.write(json.dumps({"id": i, "conns": [{"inter": per[k], "alone": alone[(crate, c)]} for k, c in enumerate(cs)]}) + "\n")
+            srt = sorted if i in unordered else (lambda x: x)
+            f.write(json.dumps({"id": i, "conns": [{"inter": srt(per[k]), "alone": srt(alone[(crate, c)])} for k, c in enumerate(cs)]}) + "\n")
     r2 = vlib.tlc("TV_C07", pid=PID, workers=8, env={"TRACE": trace}, timeout=1800, heap="10g")
 
     if tier == "thorough":
